@@ -28,3 +28,13 @@ func VerifNewDir(md *Metadata) *GPDir {
 
 // VerifNewMetadata exposes newMetadata to harnesses in other packages.
 func VerifNewMetadata() *Metadata { return newMetadata() }
+
+// Writer-side hooks (C24 rebuild harness): NewDirWriter returns an empty day object, WriteBlocks is recorded.
+// VerifAfterOpen, if set, runs after every NewDirReader call (lets a harness serve different days in turn).
+var VerifAfterOpen func()
+
+var VerifWriteBlocks func(d *GPDir, timestamp int64, traffic TrafficMetadata, counters types.Counters, data [types.ColIdxCount][]byte) error
+
+func verifNewWriter() *GPDir {
+	return &GPDir{accessMode: ModeWrite, Metadata: newMetadata()}
+}
